@@ -31,6 +31,7 @@ fn jobs(plan: &Plan) -> Vec<Job> {
     let t = plan.tier;
     let mut v = entry_jobs(plan, "C18", "accounting", t.pick(28, 500, 1), eligible);
     v.extend(entry_jobs(plan, "C18", "dominance", t.pick(16, 200, 1), |d| eligible(d) && d.flags.model));
+    v.extend(entry_jobs(plan, "C18", "long", t.pick(4, 12, 1), eligible));
     v.extend(stack_jobs(plan, "C18", "stack-accounting", t.pick(12, 100, 0), eligible));
     v
 }
@@ -48,6 +49,10 @@ fn required(plan: &Plan) -> Vec<String> {
             v.push(format!("dominance:{}", d.label));
         }
     }
+    for d in plan.reg.iter().filter(|d| eligible(d)) {
+        v.push(format!("long:{}", d.label));
+    }
+    v.push("start:merged".into());
     v.push("bound:positive".into());
     v.push("scaling-twin:compared".into());
     v
@@ -102,7 +107,76 @@ impl<E: Entry> Acct<E> {
     }
 }
 
+/// Thousands of pushes: used bytes never decrease on a push and never exceed the capacity, also
+/// across the internal reorganisations that only long histories reach (statistics summaries that
+/// compact themselves, spills, many reallocations); one clear in the middle.
+fn long<E: Entry>(ctx: &mut Ctx) {
+    let h = ctx.hist_no;
+    let n = ctx.tier.pick(2000, 12_000, 40) as usize;
+    let pool: Vec<E::V> = <E::V as Val>::gen_run(&mut ctx.rng, Dom::new(if h % 2 == 0 { Kind::Tiny } else { Kind::Hostile }), 48);
+    let trained = (h / 2) % 2 == 1;
+    let live = if trained { Live::<E>::trained("r", ctx, &pool) } else { Some(Live::<E>::new("r")) };
+    let Some(live) = live else {
+        ctx.end_history();
+        return;
+    };
+    let mut a = Acct::<E> { live, seq: Vec::new() };
+    let nforms = Live::<E>::nforms();
+    ctx.log(format!("{n} pushes of values from a pool of {} (log shows the last ones), clear after {}", pool.len(), n * 3 / 4));
+    for k in 0..n {
+        if k == n * 3 / 4 {
+            let before = heap_pairs(&a.live.r);
+            if !a.live.clear(ctx) {
+                break;
+            }
+            a.seq.clear();
+            let after = heap_pairs(&a.live.r);
+            if after.len() == before.len() {
+                for (i, (b, a2)) in before.iter().zip(after.iter()).enumerate() {
+                    if a2.1 < b.1 {
+                        ctx.fail("capacity-shrank-on-clear", format!("pair #{i}: capacity {} before clear, {} after", b.1, a2.1));
+                    }
+                }
+            }
+            if ctx.failed {
+                break;
+            }
+        }
+        let v = &pool[(k * 7 + k / 48) % pool.len()];
+        let before = a.used();
+        if ctx.log.len() > 24 {
+            ctx.log.drain(1..12);
+        }
+        if a.live.push(ctx, v, (k / 5) % nforms).is_none() {
+            break;
+        }
+        // (the issued list is not needed here; keep memory flat)
+        a.live.issued.clear();
+        a.seq.push(v.clone());
+        let pairs = heap_pairs(&a.live.r);
+        let used: usize = pairs.iter().map(|p| p.0).sum();
+        if let Some((i, (u, c))) = pairs.iter().enumerate().find(|(_, (u, c))| u > c) {
+            ctx.fail("used-exceeds-capacity", format!("after push #{k}: pair #{i} reports used {u} > capacity {c}"));
+            break;
+        }
+        if used < before {
+            ctx.fail("used-decreased-on-push", format!("summed used bytes went from {before} to {used} on push #{k} since the start ({} since the last clear)", a.seq.len()));
+            break;
+        }
+        if k % 512 == 511 && !a.observe(ctx, None) {
+            break;
+        }
+    }
+    ctx.count("long_pushes", n as u64);
+    ctx.nontrivial = true;
+    ctx.cover(&format!("long:{}", E::label()));
+    ctx.end_history();
+}
+
 pub fn run<E: Entry>(ctx: &mut Ctx) {
+    if ctx.what == "long" {
+        return long::<E>(ctx);
+    }
     let dominance = ctx.what == "dominance";
     let h = ctx.hist_no;
     let kind = if dominance { Kind::Long } else { kind_for(h) };
@@ -119,11 +193,25 @@ pub fn run<E: Entry>(ctx: &mut Ctx) {
         ctx.cover(&format!("dominance:{}", E::label()));
     }
     let nforms = Live::<E>::nforms();
-    let mut a = Acct::<E> { live: Live::new("r"), seq: Vec::new() };
+    // every other group of histories starts from merge_regions over a source that absorbed the
+    // pool (pre-sized storages, trained codecs): capacities obtained that way must survive clear too
+    let trained = !dominance && (h / 3) % 2 == 1;
+    let (la, ls, ld) = if trained {
+        let scaled: Vec<E::V> = pool.iter().map(|v| E::scale(v, 16)).collect();
+        let (Some(la), Some(ls), Some(ld)) = (Live::<E>::trained("r", ctx, &pool), Live::<E>::trained("scaled", ctx, &scaled), Live::<E>::trained("doubled", ctx, &pool)) else {
+            ctx.end_history();
+            return;
+        };
+        ctx.cover("start:merged");
+        (la, ls, ld)
+    } else {
+        (Live::new("r"), Live::new("scaled"), Live::new("doubled"))
+    };
+    let mut a = Acct::<E> { live: la, seq: Vec::new() };
     // the scaling twin receives the same history with 16x longer string payloads
-    let mut s = Acct::<E> { live: Live::new("scaled"), seq: Vec::new() };
+    let mut s = Acct::<E> { live: ls, seq: Vec::new() };
     // the doubling twin receives every item twice (the whole sequence, then the whole sequence again)
-    let mut d = Acct::<E> { live: Live::new("doubled"), seq: Vec::new() };
+    let mut d = Acct::<E> { live: ld, seq: Vec::new() };
     if !a.observe(ctx, None) {
         ctx.end_history();
         return;
